@@ -177,9 +177,20 @@ class CmdGen:
             for j, p in zip(joins, parts[1:]):
                 out += " " + j + " " + p
             return out
-        bare = join(bare_segs)
-        explicit = join(["![" + s + "]" for s in bare_segs])
+        # operands the *user* already wrapped (any capture form) stand unchanged in both programs; the others are
+        # bare on one side and wrapped by the generator on the other
+        user = [None] * len(segs)
+        if len(segs) >= 2 and self.k(4) == 0:
+            for i in range(len(segs)):
+                if self.k(3) == 0 and "\\\n" not in bare_segs[i]:
+                    user[i] = self.pick(["![%s]", "$[%s]", "!(%s)", "$(%s)"])
+            if all(user):
+                user[self.k(len(user))] = None
+        bare = join([(u % s) if u else s for u, s in zip(user, bare_segs)])
+        explicit = join([(u % s) if u else "![" + s + "]" for u, s in zip(user, bare_segs)])
         labels = ["segments:%d" % len(segs)]
+        if any(user):
+            labels.append("user-wrapped-operand")
         if joins:
             labels.append("joiners:" + "/".join(sorted(set(joins))))
         if use_cont and "\\\n" in bare:
@@ -293,6 +304,17 @@ def run_program(src):
         signal.setitimer(signal.ITIMER_REAL, 0)
         printed = my_out.getvalue()
         sys.stderr, sys.stdout = old_err, old_out
+    # a `!(...)` that ends the statement is not waited for by xonsh (in either form): finish it before reading the trace
+    try:
+        if XSH.lastcmd is not None:
+            XSH.lastcmd.end()
+    except BaseException:  # noqa: BLE001
+        pass
+    import threading
+
+    for t in threading.enumerate():
+        if t is not threading.main_thread() and not t.daemon:
+            t.join(timeout=5)
     # wait for background jobs
     try:
         from xonsh.procs.jobs import get_tasks
